@@ -408,11 +408,12 @@ def run_check(prop_id: str, tier: str, seed: int) -> int:
     rc = 0
     if violations:
         os.makedirs(replay_dir, exist_ok=True)
-        for sig, b in violations[:8]:
+        for vi, (sig, b) in enumerate(violations[:8]):
             part = next((p for p in parts if p.name == b.get('part')), None)
             case, detail, clause = b['case'], b['detail'], b['clause']
-            if part is not None and part.kind == 'hyp' and part.shrink:
-                shr = _shrink(prop_id, tier, part, sig, seed, 45 if tier == 'quick' else 240)
+            # Hypothesis shrinking for the first three signatures only (bounded); the others keep the smallest case seen
+            if part is not None and part.kind == 'hyp' and part.shrink and vi < 3:
+                shr = _shrink(prop_id, tier, part, sig, seed, 30 if tier == 'quick' else 240)
                 if shr is not None and len(json.dumps(shr['case'])) <= b['size']:
                     case, detail, clause = shr['case'], shr['detail'], shr['clause']
             h = hashlib.blake2b(sig.encode(), digest_size=6).hexdigest()
